@@ -96,6 +96,14 @@ def corpus():
     c['req-data-while-releasing'] = ('requestor', [
         ('user', {'pdu': RQ_SPEC}), ('burst', enc(AC_SPEC)), ('user', {'pdu': REL_RQ}),
         ('burst', enc(echo_rsp(9), REL_RP))])
+    # the local user aborts while the peer is in the middle of a pipelined transfer: what was already under way
+    # keeps arriving (and is ignored, AA-6) until the peer notices and closes
+    c['acc-user-abort-peer-continues'] = ('acceptor', [
+        ('burst', enc(RQ_SPEC)), ('user', {'pdu': AC_SPEC}), ('burst', enc(echo_rq(1))), ('user', {'pdu': ABORT_SU}),
+        ('burst', enc(*store_rq_pdus(3)) + enc(echo_rq(2))), ('close',)])
+    c['req-user-abort-peer-continues'] = ('requestor', [
+        ('user', {'pdu': RQ_SPEC}), ('burst', enc(AC_SPEC)), ('user', {'pdu': ABORT_SU}),
+        ('burst', enc(echo_rsp(1), echo_rsp(2), REL_RQ)), ('close',)])
     c['req-release-collision'] = ('requestor', [
         ('user', {'pdu': RQ_SPEC}), ('burst', enc(AC_SPEC)), ('user', {'pdu': REL_RQ}),
         ('burst', enc(REL_RQ)), ('user', {'pdu': REL_RP}), ('burst', enc(REL_RP))])
